@@ -74,6 +74,15 @@ func grid(thorough bool) []ceremony {
 	} else {
 		add(engFrost, []int{3, 4, 5}, []int{1, 2}, 2)
 		add(engPedersen, []int{3, 4, 5}, []int{1, 2}, 1)
+		// Overlapping duplicate handling is a window of a few instructions: it only shows up
+		// regularly with volume, so the quick tier runs every FROST configuration once more in
+		// the targeted concurrent-duplicate mode.
+		base := len(out)
+		add(engFrost, []int{3, 4, 5}, []int{1, 2}, 1)
+		for i := base; i < len(out); i++ {
+			out[i].Rep += 2
+			out[i].Focus = "concurrent"
+		}
 	}
 
 	return out
@@ -248,6 +257,10 @@ func runFakenetCeremony(c *kit.Case, cer ceremony, reg *keyRegistry, logs *faken
 		dupBudget = n - 1
 	}
 	dupAll := os.Getenv("C11_DUP_ALL") != "" // development aid, see report
+	if cer.Focus == "concurrent" {
+		mode = modeConcurrentTargeted
+		dupProfile = rng.Intn(numDupProfiles)
+	}
 	patience := 30 * time.Second
 	if cer.Engine == engPedersen {
 		// board handlers block until the protocol goroutine takes the bundle
@@ -255,7 +268,7 @@ func runFakenetCeremony(c *kit.Case, cer ceremony, reg *keyRegistry, logs *faken
 	}
 	sc := newSched(m.net, m.ids, r.Rand(c.Idx, 1), mode, patience, dupProfile, dupBudget, dupAll)
 	if cer.Engine == engFrost {
-		sc.burst = 4
+		sc.burst = 2
 		if v, err := strconv.Atoi(os.Getenv("C11_BURST")); err == nil && v > 0 { // development aid
 			sc.burst = v
 		}
@@ -511,9 +524,13 @@ wait:
 	}
 	r.Count("concurrent_duplicate_groups", int64(st.ConcGroups))
 	r.Count("concurrent_duplicate_pairs", int64(st.ConcPairs))
+	r.Count("concurrent_groups_lined_up_at_callback", int64(st.Barriers))
 	r.Count("concurrent_duplicate_pairs_"+cer.Engine, int64(st.ConcPairs))
 	if st.ConcPairs > 0 {
 		r.Count("ceremonies_with_concurrent_duplicates", 1)
+	}
+	if st.Mode == modeNames[modeConcurrentTargeted] {
+		r.Count("ceremonies_succeeded_targeted-concurrent", 1)
 	}
 	r.Count("targeted_redelivery_patterns", int64(st.TgtCompleted))
 	if st.TgtCompleted > 0 {
